@@ -105,8 +105,14 @@ def cmd_baseline(args):
 
 
 def cmd_selftest(args):
-    from vtlib import selftest
-    return selftest.run(args.only)
+    """re-validate the seeded changes under /verif/seeded (all, or the given directories) against the checks:
+    tools/sweep_seeds.sh copies /repo to a scratch directory per seed, applies the patch there and runs the property's
+    quick check with VT_REPO pointing at the copy; /repo itself is never touched"""
+    import subprocess
+    from vtlib.env import VERIF
+    cmd = [os.path.join(VERIF, "tools", "sweep_seeds.sh")] + [os.path.join("seeded", x) if not x.startswith("seeded") else x
+                                                                for x in (args.only or [])]
+    return subprocess.call(cmd, cwd=VERIF)
 
 
 def main(argv=None):
